@@ -231,7 +231,7 @@ PROPS["C13"] = {
              "written from a foreign thread (-> writesQueue) are queued; then the workers are released and nothing further is pushed: every connection must be answered with its own tag, every "
              "time-out must give its 408 no earlier than its duration, every foreign answer must arrive, within 3 s. Non-trivial there = >=2 entries for one queue or entries for two queues behind a held worker. Stage c13_freerun.cc: real threads and the real eventfd without hooks - 1 producer x 2-3 pushes, the later pushes delayed by a busy-wait swept across the duration of the consumer's drain, 1500-3000 trials per case; when both threads have stopped an item still queued must have its notification pending (poll on the eventfd). Non-trivial there = a later push found the consumer mid-drain or just stopped."),
     "engine": "cooperative scheduler (harness/common/sched.h) + rapidcheck",
-    "technique": "systematic schedule enumeration (stateless depth-first search over a harness-owned cooperative scheduler at the hook points) plus rapidcheck-generated schedules; oracle = history invariants (multiset, per-producer order, no missed wake-up)",
+    "technique": "systematic schedule enumeration (stateless depth-first search over a harness-owned cooperative scheduler at the hook points) plus rapidcheck-generated schedules, generated batches behind held loop threads for the framework's own drain loops, and free-running trials (real threads, no hooks) with a swept push delay; oracle = history invariants (multiset, per-producer order, no missed wake-up: an item still queued when everybody has stopped must have its notification pending)",
     "level_text": "Every sequentially consistent interleaving at hook-point granularity is executed for the small configurations (exhaustive: true refers to those); larger configurations are sampled. Real code, real eventfd/epoll objects.",
     "level_note": "Sequentially consistent interleavings only, at the granularity of the five hook points (what the property quantifies over); weak-memory effects are not explored. Needs the PISTACHE_VERIF_HOOKS yield points in mailbox.h; a shared access that has no hook next to it is fused with its neighbours under the scheduler and is only reached by the free-running stage (c13_freerun.cc), which samples real schedules and enumerates nothing. Of the framework's five drain loops the last stage runs the client's two (connection queue, request queue); the server transport's write queue is driven by C06's harness and, together with its peer and timer queues, by the stage c13_server_drains.cc (batches queued behind held workers).",
     "assumptions": ["the five yield points are the only accesses to state shared between producer and consumer", "poll(eventfd, 0) is the readiness the event loop would see (level-triggered registration)"],
@@ -382,7 +382,7 @@ PROPS["C06"] = {
              "order); each promise settles at most once, is fulfilled with the buffer's full size, not before the socket had accepted its last byte, and all are fulfilled in the end. "
              "Non-trivial = >=2 writes and the script contained a short write followed later by a would-block; distinct = hash of the case. One loop-thread case in three is a chain: write i+1 is issued from the continuation of write i's promise and followed by Transport::flush(). Stage c06_coincide.cc: through the recv hook the single worker is held after it has read a connection's first bytes (a complete request, or a request line / head that makes a 400 due) and again while it reads another connection's request; the first connection's further bytes (the beginning of its next request, the rest of the malformed one, an empty line) arrive meanwhile, so that the kernel reports it readable and writable in one event: the response due must still arrive within 2 s. Non-trivial there = the further bytes arrive during the second hold. In chained cases with an odd number (>= 3) of writes the first two are issued together and only the first one's continuation carries the chain on."),
     "engine": "rapidcheck",
-    "technique": "property-based testing (rapidcheck) with injected faults: generated write lists x generated short-write / would-block scripts applied through a guarded socket-call indirection; oracle = byte-exact stream reconstruction and promise accounting",
+    "technique": "property-based testing (rapidcheck) with injected faults: generated write lists x generated short-write / would-block scripts applied through a guarded socket-call indirection, plus generated wake-up choreographies in which the recv hook holds the worker while further input for a connection with a queued response arrives; oracle = byte-exact stream reconstruction, promise accounting, and the response due arriving within a bound",
     "level_text": "Placements of short writes and would-block results over the successive socket calls are generated per case and applied to the real transport on a live connection. Not exhaustive: placements are sampled.",
     "level_note": "A simulated would-block leaves the real socket writable, so epoll reports it writable again at once: fine for data integrity and promise semantics (this check), not for starvation (C07 uses real back-pressure). Needs the PISTACHE_VERIF_HOOKS indirection in transport.cc.",
     "assumptions": ["the send/sendfile hooks see every socket write of the transport"],
@@ -404,7 +404,7 @@ PROPS["C07"] = {
              "stay <= 4+2k (counted by the hook); after the release A receives exactly the pending responses, in order. Non-trivial = at least one request issued strictly inside the stall with "
              "its 1 s bound ending before the release, while writes were pending; distinct = hash of the case. oracle_subchecks = cases run. In a quarter of the cases the request A sends at the release is answered as a stream with two flushes on the worker thread. Stage c07_wakeup.cc: the single worker is held through the recv hook while, in this order, B's request, a write for the stalled connection A from another thread and A's writability (A's client starts reading; its pending remainder is sized from a calibration run to 0.6-4 KB) pile up for one wake-up; B is answered with send() or as a stream flushed on the loop thread. The process must survive, B be answered within 2.5 s, A receive its big response and then the foreign answer, complete and in order."),
     "engine": "rapidcheck",
-    "technique": "property-based testing (rapidcheck) with real kernel back-pressure as the injected fault: generated stall durations, pending-write counts and request placements; oracle = latency bound on other connections, hook-counted write attempts, byte-exact delivery after release",
+    "technique": "property-based testing (rapidcheck) with real kernel back-pressure as the injected fault: generated stall durations, pending-write counts and request placements, plus generated one-wake-up choreographies (the recv hook holds the worker while another connection's request, a foreign write for the stalled connection and its writability pile up); oracle = latency bound on other connections, hook-counted write attempts, byte-exact delivery after release, process survival",
     "level_text": "Placements and durations of a real would-block period relative to requests on other connections of the same worker are generated. Sampled, not exhaustive.",
     "level_note": "Real back-pressure, not a simulated EAGAIN (with a simulated one a correct implementation would be woken continuously and the attempt bound would be a false alarm). Latency verdicts follow the 3x replay rule; the attempt-count verdict is not time-dependent.",
     "assumptions": ["a 4 KiB SO_SNDBUF/SO_RCVBUF pair fills after a few KiB so that the remaining hundreds of KiB stay pending"],
